@@ -3,5 +3,5 @@ CONSTANTS
   Callers = {"r", "w", "x"}
   MaxEnters = 2
   Deviations = {}
-INVARIANTS CallersModeRespected NonblockNeverWaits ModeRestoredWhenQuiet NeverAsksBlocking
+INVARIANTS CallersModeRespected NonblockNeverWaits ModeRestoredWhenQuiet NeverAsksBlocking NoAbort
 CHECK_DEADLOCK FALSE
